@@ -24,7 +24,7 @@ def contexts(c):
 
 
 def quick_codepoints():
-    cps = set(range(0, 0x3000))
+    cps = set(range(0, 0x10000))
     for b in (0x300, 0x7ff, 0x800, 0xd7ff, 0xd800, 0xdbff, 0xdc00, 0xdfff, 0xe000, 0xfffd, 0xfffe, 0xffff,
               0x10000, 0x1f600, 0x10ffff, 0x2028, 0x2029, 0xfeff, 0x85, 0x1680, 0x2000, 0x3000):
         for d in (-1, 0, 1):
@@ -39,7 +39,7 @@ def shards(tier, seed):
     out = []
     if tier == 'quick':
         cps = quick_codepoints()
-        n = 48
+        n = 128
         for i in range(n):
             out.append(('cps', cps[i::n]))
     else:
